@@ -1,0 +1,25 @@
+//go:build verif
+
+package middleware
+
+import "strings"
+
+// Pure specification functions used by the contracts in zz_contracts_verif.go.
+
+// specHostname strips a trailing ":port" from a Host header value (bracketed IPv6 literals keep their colons).
+func specHostname(host string) string {
+	i := strings.LastIndex(host, ":")
+	if i != -1 && strings.LastIndex(host, "]") < i {
+		return host[:i]
+	}
+	return host
+}
+
+// specPathStyle is the path-style form of a virtual-hosted request to bucket b with path p: the bucket becomes the
+// first path segment and the rest of the path (the object key, byte for byte) follows; the bucket root "/" maps to "/b".
+func specPathStyle(b string, p string) string {
+	if p == "/" {
+		return "/" + b
+	}
+	return "/" + b + p
+}
